@@ -363,15 +363,20 @@ def l1_framing(part, r, n):
         streams.append(s)
     res = batch(['frame ' + nats(s) for s in streams])
 
+    from pymap.sieve.manage import ManageSieveConnection
+
     async def real(s):
-        conn = IMAPConnection.__new__(IMAPConnection)
-        conn.reader = asyncio.StreamReader()
-        conn.reader.feed_data(s)
-        conn.reader.feed_eof()
-        try:
-            return str(len(await conn.readline()))
-        except (EOFError, asyncio.IncompleteReadError):
-            return 'none'
+        out = []
+        for cls, meth in ((IMAPConnection, 'readline'), (ManageSieveConnection, '_read_data')):
+            conn = cls.__new__(cls)
+            conn.reader = asyncio.StreamReader()
+            conn.reader.feed_data(s)
+            conn.reader.feed_eof()
+            try:
+                out.append(str(len(await getattr(conn, meth)())))
+            except (EOFError, asyncio.IncompleteReadError):
+                out.append('none')
+        return out
     import signal
 
     class Spin(Exception):
@@ -393,8 +398,10 @@ def l1_framing(part, r, n):
                 signal.setitimer(signal.ITIMER_REAL, 0)
             part.stat('l1-framing')
             part.case(key='frame:' + s.hex()[:200], nontrivial=b'+}' in s)
-            if got != mres and got != 'spin':
-                part.violation('correspondence', f'IMAPConnection.readline took {got} bytes of {s[:120]!r}, Framing.readCmd {mres}', dict(level='L1', stream=list(s)), signature='l1-framing')
+            if got != 'spin':
+                for who, g in zip(('IMAPConnection.readline', 'ManageSieveConnection._read_data'), got):
+                    if g != mres:
+                        part.violation('correspondence', f'{who} took {g} bytes of {s[:120]!r}, Framing.readCmd {mres}', dict(level='L1', stream=list(s)), signature='l1-framing')
     signal.signal(signal.SIGALRM, old_handler)
 
 
